@@ -102,6 +102,13 @@ func BulkAddEmptyResults(pqid string, segKeyMap map[string]bool) {
 
 func writeEmptyPqsMapToFile(fileName string, emptyPqs map[string]bool) {
 
+	// the directory is removed together with its last file (removePqmrFilesAndDirectory, DeletePQMetaDir)
+	err := os.MkdirAll(path.Dir(fileName), os.FileMode(0764))
+	if err != nil {
+		log.Errorf("writeEmptyPqsMapToFile: Failed to create directory of fname=%v, err=%v", fileName, err)
+		return
+	}
+
 	fd, err := os.OpenFile(fileName, os.O_WRONLY|os.O_CREATE|os.O_TRUNC, 0764)
 	if err != nil {
 		log.Errorf("writeEmptyPqsMapToFile: Error opening file at fname=%v, err=%v", fileName, err)
